@@ -58,6 +58,22 @@ CHECKS.update({
     "C19": dict(text="Gsd.tla defines the statement interpreter above the lexical layer (settings, PrmText tables, ExtUserPrmData, references resolved at use, legacy vs extended user parameters, modules, slots, Max_Module default, compact-station rule); MC_Gsd checks the post-processing rules on all statement sequences up to length 4/5; randomly generated abstract documents are rendered with lexical variation (keyword case, spacing, comments, continuations, CR/LF, hex, preamble, blank lines, repeated definitions), parsed by the real parser and the projected result is compared by TLC with Interp(doc) (C19.faithful); grammar-aware mutations of those texts and of mock.gsd plus random bytes must never panic (C19.total).", note="Trusted: harness renderer and projection (gsd.rs), TLC. The PEG / lexical layer is not modelled in TLA+ (DESIGN section 9): mutation and random bytes have the oracle 'returns without panic' only.", technique=CALL_TECH, ref="6 C19"),
 })
 
+# additions made after the first version of each check (DESIGN section 12)
+DP_ADD = (" As built (DESIGN 12): Dp.tla/MC_Dp model-check the DP master operators against the reference slave with a fault budget (no unreachable!(), "
+          "C08/C03/C14 monitors, liveness <>[]AllRunning); MC_DpSched prints one fault schedule per reachable model state and the real DpMaster replays them "
+          "(spec -> impl); TraceDpM checks that every call-back of the real DpMaster equals the operator result (impl -> spec); driver modes edge (bursts of exactly "
+          "retry lost transmissions), flags, neg, tight target rotation time, repeated enter_operate().")
+RING_ADD = (" As built (DESIGN 12): layer-M jobs Ring.tla (N stations from FdlStation!DoPoll, safety + <>[]Converged), GapSweep, Turnaround; single-station "
+            "schedules from MC_FdlSingle (cold, warm and held starts) replayed on the real station with poll-level conformance; ring modes ff, apps (incl. long "
+            "requests, low-priority-only and SdnHigh traffic), fault, vanish, lasttx, race, claim, phase; every failing clause of an event is reported and a "
+            "violation ends the judgement of its own property only.")
+for _p in ("C03", "C04", "C07", "C08", "C14"):
+    CHECKS[_p]["text"] += DP_ADD
+for _p in ("C01", "C02", "C06", "C11", "C12", "C13", "C15"):
+    CHECKS[_p]["text"] += RING_ADD
+CHECKS["C05"]["text"] += (" As built (DESIGN 12): also the DP schedule replay and the byte-level fuzz driver pbv fuzz (grammar, reactive, mutational, random bytes; "
+                          "application sets none / DpMaster 0..3 peripherals / LiveList / DpScanner / poll_multi) validated by TraceFuzz.")
+
 ALL = ["C%02d" % i for i in range(1, 21)]
 
 
